@@ -356,13 +356,28 @@ def thread_shard(job) -> dict:
 
 
 # ---------------------------------------------------------------- histories
-def probe_digests() -> dict:
-    out = {}
-    for api in ("generic", "rdflib"):
-        for cls, seq in (("triple", S3), ("quad", S4), ("graph", S4)):
+def probe_digests(only: str | None = None) -> dict:
+    """Digests of the probe workloads; `only` = compute just that one (in a process of its own)."""
+    out = _probe_digests_all() if only is None else {}
+    if only is not None:
+        # build the requested probe lazily by running the generator of all probes up to it
+        for k, thunk in _probe_thunks():
+            if k == only:
+                out[k] = thunk()
+                break
+    return out
+
+
+def _probe_digests_all() -> dict:
+    return {k: thunk() for k, thunk in _probe_thunks()}
+
+
+def _probe_thunks():
+    """(name, thunk) pairs; nothing pyjelly-related runs before a thunk is called."""
+    def ser(api, cls, seq):
+        def thunk():
             opts = _opts(cls)
             if cls == "graph":
-                # explicit statement order (rdflib's own set order is not pyjelly's business)
                 g = w_serialize(api, cls, seq)({})
                 try:
                     while True:
@@ -372,31 +387,47 @@ def probe_digests() -> dict:
             else:
                 data = (DR.g_write if api == "generic" else DR.r_write)(seq, cls, opts,
                                                                        "stream_frames_gen")
-            out[f"{api}-{cls}"] = hashlib.sha256(data).hexdigest()
+            return hashlib.sha256(data).hexdigest()
+        return thunk
+
+    def par(api, cls, seq):
+        def thunk():
             read = DR.g_read if api == "generic" else DR.r_read
-            out[f"{api}-{cls}-parse"] = hashlib.sha256(
-                repr(read(fixed_stream(cls, seq), "flat")).encode()).hexdigest()
-    # same settings as an earlier stream except for the stream name
-    for api in ("generic", "rdflib"):
-        g = w_serialize(api, "triple", S3, stream_name="probe-name")({})
-        try:
-            while True:
-                next(g)
-        except StopIteration as e:
-            out[f"{api}-named"] = hashlib.sha256(bytes.fromhex(e.value)).hexdigest()
-    # namespace declarations: one statement (no container order involved), several bindings
-    binds = [("ex", "http://a/"), ("b", "http://b#"), ("c", "http://c/"), ("", "urn:x"),
-             ("zz", "http://zz/")]
-    for api in ("generic", "rdflib"):
-        for cls, seq in (("triple", S3[:1]), ("quad", S4[:1])):
+            return hashlib.sha256(repr(read(fixed_stream(cls, seq), "flat")).encode()).hexdigest()
+        return thunk
+
+    def named(api):
+        def thunk():
+            g = w_serialize(api, "triple", S3, stream_name="probe-name")({})
+            try:
+                while True:
+                    next(g)
+            except StopIteration as e:
+                return hashlib.sha256(bytes.fromhex(e.value)).hexdigest()
+        return thunk
+
+    def nsp(api, cls, seq):
+        def thunk():
+            binds = [("ex", "http://a/"), ("b", "http://b#"), ("c", "http://c/"), ("", "urn:x"),
+                     ("zz", "http://zz/")]
             opts = DR.make_options(cls, (8, 3, 1), 250, True, generalized=False, rdf_star=False,
                                    ns=True)
             if api == "generic":
                 data = DR.g_write(seq, cls, opts, "stream_frames_sink", bindings=binds)
             else:
                 data = DR.r_write(seq, cls, opts, "graph_serialize_stream", bindings=binds)
-            out[f"{api}-{cls}-namespaces"] = hashlib.sha256(data).hexdigest()
-    return out
+            return hashlib.sha256(data).hexdigest()
+        return thunk
+
+    for api in ("generic", "rdflib"):
+        for cls, seq in (("triple", S3), ("quad", S4), ("graph", S4)):
+            yield f"{api}-{cls}", ser(api, cls, seq)
+            yield f"{api}-{cls}-parse", par(api, cls, seq)
+    for api in ("generic", "rdflib"):
+        yield f"{api}-named", named(api)
+    for api in ("generic", "rdflib"):
+        for cls, seq in (("triple", S3[:1]), ("quad", S4[:1])):
+            yield f"{api}-{cls}-namespaces", nsp(api, cls, seq)
 
 
 def history_actions() -> dict:
@@ -487,10 +518,10 @@ def history_shard(job) -> dict:
     return acc.out()
 
 
-def fresh_digests(seed: str) -> dict:
+def fresh_digests(seed: str, only: str | None = None) -> dict:
     envp = dict(os.environ)
     envp["PYTHONHASHSEED"] = seed
-    envp["VERIF_C12_PROBE"] = "1"
+    envp["VERIF_C12_PROBE"] = only or "1"
     r = subprocess.run([sys.executable, "-B", "-W", "ignore", "-m", "mc.checks.c12"],
                        capture_output=True, text=True, env=envp, cwd=env.VERIF, check=False)
     if r.returncode != 0:
@@ -527,6 +558,19 @@ def run(ctx) -> None:
         jobs += [("t", ([t], 1, 3)) for t in tri]
     seeds = ["0", "1", "2", "3", "4", "42", str(2**32 - 1), "random", "random"]
     fresh = fresh_digests("0")
+    # every probe also alone in a process of its own: the result must not depend on what ran
+    # before it in the same process (process-lifetime caches keyed too coarsely)
+    from concurrent.futures import ThreadPoolExecutor  # noqa: PLC0415
+
+    names = list(fresh)
+    with ThreadPoolExecutor(8) as ex:
+        alone = list(ex.map(lambda k: fresh_digests("0", k), names))
+    for k, d in zip(names, alone):
+        if d.get(k) != fresh[k]:
+            ctx.violation({"part": "isolated-process", "probe": k},
+                          f"probe workload {k} gives different bytes/results when it runs after "
+                          "the other probes in one process than alone in a fresh process",
+                          {"part": "isolated", "probe": k})
     by_seed = {}
     for s in seeds[1:] if ctx.quick else seeds:
         by_seed[s + ("#" + str(len(by_seed)) if s == "random" else "")] = fresh_digests(s)
@@ -578,6 +622,10 @@ def replay(case: dict) -> list:
         return interleave_case(case)
     if case["part"] == "threads":
         return thread_case(case)
+    if case["part"] == "isolated":
+        k = case["probe"]
+        return [] if fresh_digests("0", k).get(k) == fresh_digests("0")[k] else [
+            f"probe {k} depends on what ran before it in the process"]
     if case["part"] == "history":
         fresh = fresh_digests("0")
         acts = history_actions()
@@ -595,4 +643,5 @@ if __name__ == "__main__" and os.environ.get("VERIF_C12_PROBE"):
     sys.path.insert(0, env.REPO)
     env.assert_repo_pyjelly()
     DR.ensure_rdflib_plugin()
-    print(json.dumps(probe_digests()))
+    which = os.environ["VERIF_C12_PROBE"]
+    print(json.dumps(probe_digests(None if which == "1" else which)))
